@@ -1,4 +1,7 @@
 #include "seams.h"
+#include <execinfo.h>
+#include <fcntl.h>
+#include <unistd.h>
 #include <tfhe.h>
 #include <tfhe_io.h>
 #include <lagrangehalfc_arithmetic.h>
@@ -90,6 +93,15 @@ static void segv_handler(int sig, siginfo_t *si, void *) {
         tl_fault = (uintptr_t) si->si_addr;
         sigjmp_buf *j = tl_jmp;
         siglongjmp(*j, tl_fault < 4096 ? O_NULLDEREF : O_WILDSEGV);
+    }
+    // fatal: say where and in which memory situation (an allocation that failed under memory pressure looks like a null or
+    // near-null dereference in code that does not check), then die with the default action so that the driver classifies it
+    {
+        char buf[256]; int n = snprintf(buf, sizeof buf, "\nFATAL-SIGNAL %d fault-address %p\n", sig, si ? si->si_addr : nullptr);
+        if (n > 0) { ssize_t w = write(2, buf, (size_t) n); (void) w; }
+        void *bt[48]; int nb = backtrace(bt, 48); backtrace_symbols_fd(bt, nb, 2);
+        int fd = open("/proc/meminfo", O_RDONLY);
+        if (fd >= 0) { char mi[400]; ssize_t k = read(fd, mi, sizeof mi - 1); if (k > 0) { ssize_t w = write(2, mi, (size_t) k); (void) w; } close(fd); }
     }
     signal(sig, SIG_DFL);
     raise(sig);
